@@ -115,7 +115,7 @@ fn transform(u: &mut Choices, f: &File, doc: &V) -> Option<Xform> {
     let mut g = f.clone();
     let c0 = clause_at(&mut g, &s).clone();
     let fresh = "zv".to_string();
-    let kind = u.below(9);
+    let kind = u.below(11);
     match kind {
         0 | 1 => {
             // literal on the right-hand side -> variable
@@ -194,6 +194,32 @@ fn transform(u: &mut Choices, f: &File, doc: &V) -> Option<Xform> {
                 _ => g.rules[ri].lets.push(l),
             }
             Some(Xform { kind: "block-query", file: g, note: format!("block query prefix {} -> let at {:?}", query_text(&p), lvl), resolves: true })
+        }
+        9 | 10 => {
+            // a key inside the left-hand query -> string variable, interpolated (`a.%k.rest`)
+            // documented shape only: the interpolated key is last or followed by a key / `[*]`
+            // (an index after it selects among the variable's values, `.*` and filters are
+            // rejected as unsupported)
+            let idxs: Vec<usize> = c0
+                .q
+                .parts
+                .iter()
+                .enumerate()
+                .filter(|(i, p)| matches!(p, Part::Key(_)) && matches!(c0.q.parts.get(i + 1), None | Some(Part::Key(_)) | Some(Part::AllIdx)))
+                .map(|(i, _)| i)
+                .collect();
+            if idxs.is_empty() {
+                return None;
+            }
+            let i = idxs[u.below(idxs.len())];
+            let key = match &c0.q.parts[i] {
+                Part::Key(k) => k.clone(),
+                _ => unreachable!(),
+            };
+            let lvl = levels_for(u, &s, true);
+            clause_at(&mut g, &s).q.parts[i] = Part::VarKey(fresh.clone());
+            add_let(&mut g, &s, lvl, Let { name: fresh, value: Expr::Lit(Lit::V(V::Str(key.clone()))) });
+            Some(Xform { kind: "key-interpolation", file: g, note: format!("key .{} -> let at {:?}, interpolated", key, lvl), resolves: true })
         }
         6 => {
             // an unused variable (query, literal, or a function call that would raise an error)
